@@ -28,6 +28,11 @@ def make(sid, specs, allsym=16, timeout=240, full=0):
         cas.add_files(fl)
         buf = cas.get_buffer()
         info = {"files": [s.text() for s in specs], "image_len": len(buf)}
+        for cf, d in zip(fl, descs):
+            if len(cf.data) != len(d["data"]):
+                info["fault"] = "writing the image modified the caller's data list"
+                return ctx.known(PID, {"part": "roundtrip"}, {"n": len(specs), "lengths": [s.length for s in specs], "listed": -2,
+                                                               "empty_index": len(specs), "kind": None, "stage": None}), info
         try:
             got = CassetteFile(buffer=buf[:]).list_files()
         except VirtualFileValidationError as e:
@@ -43,6 +48,57 @@ def make(sid, specs, allsym=16, timeout=240, full=0):
                "kind": None, "stage": None}
         return ctx.known(PID, {"part": "roundtrip"}, env), info
     return Ob("C06:rt:" + sid, body, timeout=timeout, tags={"part": "roundtrip"}, text=" + ".join(s.text() for s in specs))
+
+
+def make_repeat(sid, spec, timeout=300):
+    """the same CoCoFile object stored twice in one list, then the list stored on a second tape: every copy complete"""
+    def body(ctx):
+        install_m7()
+        fl, descs = F.build(ctx, [spec], allsym_limit=8)
+        info = {"file": spec.text()}
+        bufs = []
+        for _round in range(2):
+            cas = CassetteFile()
+            cas.add_files([fl[0], fl[0]])
+            bufs.append(cas.get_buffer())
+        ok = True
+        for b in bufs:
+            try:
+                got = CassetteFile(buffer=b[:]).list_files()
+            except VirtualFileValidationError as e:
+                got = None
+                info["read_error"] = str(e)
+            if got is None or not F.same_list(got, [descs[0], descs[0]]):
+                ok = False
+        if ok:
+            return True, info
+        return ctx.known(PID, {"part": "repeat"}, {"length": spec.length}), info
+    return Ob("C06:repeat:" + sid, body, timeout=timeout, tags={"part": "repeat"}, text="%s stored twice, on two tapes" % spec.text())
+
+
+def make_incremental(sid, specs, timeout=300):
+    """one container object: add, list, add, list -- every listing shows everything stored so far"""
+    def body(ctx):
+        install_m7()
+        fl, descs = F.build(ctx, specs, allsym_limit=8)
+        cas = CassetteFile()
+        ok = True
+        info = {"files": [s.text() for s in specs]}
+        for i, cf in enumerate(fl):
+            cas.add_file(cf)
+            try:
+                got = cas.list_files()
+            except VirtualFileValidationError as e:
+                got = None
+                info["read_error"] = str(e)
+            if got is None or not F.same_list(got, descs[:i + 1]):
+                ok = False
+                info["failed_after"] = i
+                break
+        if ok:
+            return True, info
+        return ctx.known(PID, {"part": "incremental"}, {"n": len(specs)}), info
+    return Ob("C06:incremental:" + sid, body, timeout=timeout, tags={"part": "incremental"}, text="add/list interleaved on one container: %s" % [s.text() for s in specs])
 
 
 def make_foreign(sid, specs, leader, blank, gaps, chunk=255, allsym=16, timeout=240):
@@ -87,6 +143,9 @@ def obligations(tier, seed):
     obs.append(make("three:0mid", [S("A", 4, "ml"), S("E", 0, "ml"), S("C", 2, "ml")]))
     obs.append(make("two:0last", [S("A", 4, "ml"), S("E", 0, "basic")]))
     obs.append(make("same-name", [S("DUP", 3, "ml"), S("DUP", 4, "ml")]))
+    obs.append(make_repeat("600", S("GAME", 600, "ml")))
+    obs.append(make_repeat("255", S("EXACT", 255, "sym")))
+    obs.append(make_incremental("3", [S("ALPHA", 3, "ml"), S("BRAVO", 300, "ml"), S("CHARLIE", 2, "sym")]))
     if full:
         obs.append(make("allsym:511", [S("BIG", 511, "ml", allsym=511)], timeout=900))
         obs.append(make("three:765x3", [S("A", 765, "ml"), S("B", 765, "basic"), S("C", 765, "sym")], timeout=900))
